@@ -211,6 +211,109 @@ pub fn accuracy(ctx: &Ctx, rep: &mut Report) {
     rep.sample(json!({"sizes": "2..1024", "magnitudes": "|a_i| <= 2^14, |b_i| <= 2^10", "worst_product_rel": rep.stats.get("worst_product_rel"), "tolerance": TOL}));
 }
 
+/// One operation of a call history, with its own oracle. op: 0 = split against the transforms
+/// of the even/odd halves, 1 = inverse of forward, 2 = merge of the halves' transforms against
+/// the transform of the whole, 3 = product.
+fn history_op(op: u32, a: &[i64], b: &[i64], hist: &str, rep: &mut Report) {
+    rep.evaluations += 1;
+    let n = a.len();
+    let af: Vec<f64> = a.iter().map(|&x| x as f64).collect();
+    let na = norm2(&af).max(1e-300);
+    let replay = || json!({"kind": "history", "history": hist});
+    let ev: Vec<(f64, f64)> = (0..n / 2).map(|i| (af[2 * i], 0.0)).collect();
+    let od: Vec<(f64, f64)> = (0..n / 2).map(|i| (af[2 * i + 1], 0.0)).collect();
+    let ac = to_c(&af);
+    let dist = |x: &[(f64, f64)], y: &[(f64, f64)]| x.iter().zip(y.iter()).map(|(p, q)| (p.0 - q.0).abs().max((p.1 - q.1).abs())).fold(0.0, f64::max);
+    let r = monitored(|| match op {
+        0 => {
+            let (f0, f1) = vh::csplit(&vh::cfft(&ac));
+            let (fe, fo) = (vh::cfft(&ev), vh::cfft(&od));
+            (dist(&f0, &fe).max(dist(&f1, &fo)), na * ((n / 2) as f64).sqrt().max(1.0), "fft:split")
+        }
+        1 => (dist(&vh::cifft(&vh::cfft(&ac)), &ac), na, "fft:roundtrip"),
+        2 => {
+            let fa = vh::cfft(&ac);
+            let m = vh::cmerge(&vh::cfft(&ev), &vh::cfft(&od));
+            (dist(&m, &fa), na * (n as f64).sqrt(), "fft:merge")
+        }
+        _ => {
+            let bf: Vec<f64> = b.iter().map(|&x| x as f64).collect();
+            let p = vh::cifft(&vh::cmul(&vh::cfft(&ac), &vh::cfft(&to_c(&bf))));
+            let exact: Vec<(f64, f64)> = spec::negamul_z(a, b).iter().map(|&x| (x as f64, 0.0)).collect();
+            (dist(&p, &exact), na * norm2(&bf).max(1e-300), "fft:product")
+        }
+    });
+    match r {
+        Err(p) => rep.violation(&format!("panic:fft-history@{}", short_loc(&p.location)), format!("n={} ({}): {}", n, hist, p.message), replay()),
+        Ok((e, scale, sig)) => {
+            rep.stat_max("worst_history_rel", e / scale);
+            if !(e <= TOL * scale) {
+                rep.violation(sig, format!("operation {} at n={} inside a call history ({}) is off by {:e} (scale {:e})", ["split", "inverse(forward)", "merge", "product"][op as usize], n, hist, e, scale), replay());
+            }
+        }
+    }
+}
+
+/// A whole history in a FRESH thread (tables kept per thread start empty): `hi` fixes the
+/// pattern, everything else follows from (seed, hi).
+fn run_history(vseed: u64, hi: usize, rep: &mut Report) {
+    let out = std::thread::scope(|s| {
+        s.spawn(move || {
+            let mut rep = Report::new();
+            let mut rng = rng_for(vseed, &format!("c13-hist-{}", hi));
+            let mut ops: Vec<(u32, usize)> = vec![];
+            let pick_n = |rng: &mut rand_chacha::ChaCha20Rng| 1usize << rng.gen_range(1..=10);
+            match hi % 5 {
+                // split first, then the inverse at the same length (descending, ascending, one size)
+                0 => {
+                    let n = pick_n(&mut rng).max(4);
+                    ops.push((0, n));
+                    ops.push((1, n));
+                }
+                1 => {
+                    for k in (2..=10).rev() {
+                        ops.push((0, 1 << k));
+                    }
+                    for k in (1..=10).rev() {
+                        ops.push((1, 1 << k));
+                    }
+                }
+                // merge first, then everything else at that length
+                2 => {
+                    let n = pick_n(&mut rng).max(4);
+                    ops.extend([(2, n), (3, n), (0, n), (1, n)]);
+                }
+                // product first at a large size, then small sizes
+                3 => {
+                    ops.push((3, 1024));
+                    for _ in 0..6 {
+                        ops.push((rng.gen_range(0..4), pick_n(&mut rng)));
+                    }
+                }
+                _ => {
+                    for _ in 0..10 {
+                        ops.push((rng.gen_range(0..4), pick_n(&mut rng)));
+                    }
+                }
+            }
+            let hist = format!("seed {} history {}: {:?}", vseed, hi, ops);
+            for (op, n) in ops {
+                let a: Vec<i64> = (0..n).map(|_| rng.gen_range(-16384i64..=16384)).collect();
+                let b: Vec<i64> = (0..n).map(|_| rng.gen_range(-1024i64..=1024)).collect();
+                history_op(op, &a, &b, &hist, &mut rep);
+            }
+            rep.count("call_histories", 1);
+            rep.nontrivial(format!("hist|{}", hi).as_bytes());
+            rep
+        })
+        .join()
+    });
+    match out {
+        Ok(r) => rep.merge(r),
+        Err(_) => rep.inconclusive("a history thread died".into()),
+    }
+}
+
 /// The same low-degree polynomial embedded in every length, walked through in one thread.
 pub fn cross_size(ctx: &Ctx, rep: &mut Report) {
     let mut rng = rng_for(ctx.seed, "c13-cross");
@@ -247,6 +350,11 @@ pub fn cross_size(ctx: &Ctx, rep: &mut Report) {
         }
         rep.count("cross_size_walks", 1);
     }
+    // call histories in fresh threads
+    let nh = ctx.sz(200, 4000);
+    let r = par_for(nh, ncpu(), |hi, rep| run_history(ctx.seed, hi, rep));
+    rep.merge(r);
+    rep.require("call_histories", 50);
     rep.sample(json!({"walks": rounds, "sizes": sizes, "inputs": "the same low-degree coefficients embedded in every length, in one thread"}));
     rep.require("cross_size_walks", 3);
 }
@@ -254,6 +362,13 @@ pub fn cross_size(ctx: &Ctx, rep: &mut Report) {
 pub fn replay(r: &Value) -> bool {
     let mut rep = Report::new();
     match r["kind"].as_str().unwrap_or("") {
+        "history" => {
+            // "seed S history H: ..."
+            let h = r["history"].as_str().unwrap_or("");
+            let w: Vec<&str> = h.split(|c: char| c == ' ' || c == ':').collect();
+            let (vs, hi) = (w.get(1).and_then(|x| x.parse().ok()).unwrap_or(1u64), w.get(3).and_then(|x| x.parse().ok()).unwrap_or(0usize));
+            run_history(vs, hi, &mut rep);
+        }
         "product" => {
             let a: Vec<i64> = r["a"].as_array().unwrap().iter().map(|x| x.as_i64().unwrap()).collect();
             let b: Vec<i64> = r["b"].as_array().unwrap().iter().map(|x| x.as_i64().unwrap()).collect();
